@@ -16,7 +16,7 @@ import re
 
 from ..facts import AnalysisBroken, short
 from ..paths import path, pstr, last_field, root_var_id, fields_in
-from ..moves import MoveAnalysis
+from ..moves import MoveAnalysis, vtag
 from .. import formula as F
 from .. import witness, extract
 from ..slots import SlotInterp, State
@@ -57,7 +57,7 @@ KIND_TEXT = {
 }
 
 
-def run_slot_rules(ctx, rule_p, rule_o, tu, only_kinds=None, rule_b=None, classes=None):
+def run_slot_rules(ctx, rule_p, rule_o, tu, only_kinds=None, rule_b=None, classes=None, fn_filter=None):
     """Run the slot interpretation over the processing functions of tu; report under rule_p / rule_o."""
     n = 0
 
@@ -86,6 +86,8 @@ def run_slot_rules(ctx, rule_p, rule_o, tu, only_kinds=None, rule_b=None, classe
         for nm in names:
             for f in tu.fns_named('%s::%s' % (q, nm)):
                 if f.kind == 'lambda':
+                    continue
+                if fn_filter and not fn_filter(f):
                     continue
                 # helpers that receive lists by reference are interpreted from their callers only
                 if any(interp.is_slot_list_type(p['t']) for p in f.params):
@@ -116,7 +118,7 @@ def check(ctx):
         for f in tu.fns:
             if f.outermost().skey in ENQUEUE_MOVE_FNS:
                 vs, pairs = ma.violations(f)
-                names = sorted({v['site']['name'] + ' ' + v['kind'] for v in vs})
+                names = sorted({vtag(v) for v in vs})
                 ctx.ob('C05.M', f, 'arguments are never read after (or unsequenced with) being moved from', not vs,
                        detail='\n'.join(v['msg'] for v in vs[:3]), key_detail='move ' + ','.join(names),
                        where=f.nloc(vs[0]['site']['consumer']) if vs else None)
